@@ -104,7 +104,7 @@ SIZES = {
                       "NLongU": 2500, "NLongS": 1000, "NLong2": 100},
               "laws": [{"MaxLen": 3, "MaxLen2": 2, "Wide": "FALSE", "MCTotal": 4}]},
     "thorough": {"gen": {"MaxLen": 3, "MaxLen2": 2, "Wide": "TRUE", "NCfg": 10000, "PerCfg": 4,
-                         "NLongU": 30000, "NLongS": 15000, "NLong2": -1},
+                         "NLongU": 30000, "NLongS": 15000, "NLong2": 0},
                  "laws": [{"MaxLen": 3, "MaxLen2": 2, "Wide": "FALSE", "MCTotal": 6},
                           {"MaxLen": 3, "MaxLen2": 2, "Wide": "TRUE", "MCTotal": 4}]},
 }
@@ -209,7 +209,7 @@ def run(tier, seed):
                 "from the option cross product x %d list pairs each; non-trivial = both inputs and the output non-empty; "
                 "distinct by case and output"
                 % (size["gen"]["MaxLen"], size["gen"]["MaxLen2"],
-                   *[("all" if size["gen"][k] < 0 else "%d draws" % size["gen"][k]) for k in ("NLongU", "NLongS", "NLong2")],
+                   *[("all" if size["gen"][k] == 0 else "%d draws" % size["gen"][k]) for k in ("NLongU", "NLongS", "NLong2")],
                    size["gen"]["NCfg"], size["gen"]["PerCfg"]),
         "exhaustive": False,
         "configurations": len(configs), "cases_by_mode": by_mode,
